@@ -11,7 +11,6 @@ run C11
 run C12 --only depth_boundary,commitment_and_proofs,refusals
 run C03 --only other_curves,codec,toy_truth,commit
 run C08
-run C07 --only deep_paths,invalid_child
 run C05 --only keys_sigs,psbt,tx_bytes
 run C06 --only keys,bip21
 run C18 --only funding_worlds,funding_direct,estimate_dominates
@@ -21,4 +20,5 @@ run C06 --only coverage_guided
 run C14 --only coverage_guided
 run C05 --only coverage_guided
 run C15 --only coverage_guided,static
+run C07 --only deep_paths,invalid_child
 echo "=== done $(date +%H:%M:%S)"
